@@ -25,11 +25,12 @@ PROPS = {'C10': {'level': 'proof',
          'explanation': 'Verus proves, for every buffer and every header value, that Frame arithmetic and the extract/enclose functions of '
                         'LengthDelimited, AnyDelimited, CharDelimited (extract) and NoopFramer never overflow, never index out of bounds, never '
                         'report a frame that does not fit, with the extract decision pinned in both directions and enclose->extract round trips as '
-                        'lemmas; the data, refill, end-of-stream steps of the Framed read state machine and the data step of its write side by '
-                        'statement-range extraction; AncillaryBuilder::{new, push} (the cursor invariant, advance never beyond capacity, refused '
-                        'push records nothing) over ASSUMED raw-pointer contracts of CMsgIter/CMsgMut. Kani checks WHICH length is decoded (all 8 '
-                        'header bytes symbolic), the byte-conversion facts (complete), delimiter scanning and the cmsg builder/iterator round trip '
-                        'on the real code (bounded, listed separately).',
+                        'lemmas; the whole Idle arm (state always put back: F17), make-room, refill, end-of-stream steps of the Framed read state '
+                        'machine, the data step and the write future of its write side by statement-range extraction, one turn of the read loop as a '
+                        'composition lemma; BytesCodec::decode against the abstract Decoder contract; AncillaryBuilder::{new, push} (the cursor '
+                        'invariant, advance never beyond capacity, refused push records nothing) over ASSUMED raw-pointer contracts of '
+                        'CMsgIter/CMsgMut. Kani checks WHICH length is decoded (all 8 header bytes symbolic), the byte-conversion facts (complete), '
+                        'delimiter scanning and the cmsg builder/iterator round trip on the real code (bounded, listed separately).',
          'trusted': ['A4 vshim: io::Error construction keeps only the kind (R7); u64::from_{be,le}_bytes are uninterpreted in Verus (R10), their '
                      'meaning is checked by kani io lenfield::extract_hostile_header',
                      'contracts of compio-buf views (common/buf.vrs) are assumed here and discharged by check C10',
@@ -88,13 +89,19 @@ PROPS = {'C10': {'level': 'proof',
          'verus': ['c11-buffer', 'c12-sync'],
          'kani': ['io'],
          'explanation': 'PARTIAL. Proved (Verus, real bodies): the Buffer behind both adapters (take/restore, advance, reset, with, with_sync, '
-                        'flush_to with error safety, compact_to), and of the blocking-style adapter SyncReadBuf::{available_read, fill_buf, consume, '
-                        'read, fill_read_buf, is_eof} and SyncWriteBuf::{write, flush_write_buf, has_pending_write} as whole functions (closures '
-                        'over &mut by instantiating Buffer::with/with_sync at the closure; closure bodies as statement ranges), plus the FIFO pipe '
-                        'invariants of both directions as composition lemmas. Of the poll-style adapter only replace_waker. Bounded (Kani, real '
-                        'SyncStream through its public API): limit honoured, short writes. NOT covered: read_buf_uninit/read_buf, into_inner, the '
-                        'rest of AsyncStream/AsyncWriteStream (pinned self-referential futures, waker arrays, poll_close ordering).',
+                        'flush_to with error safety, compact_to), and of the blocking-style adapter SyncReadBuf::{new, available_read, fill_buf, '
+                        'consume, read, read_buf_uninit, fill_read_buf, into_inner, is_eof} and SyncWriteBuf::{write, flush_write_buf, '
+                        'has_pending_write} as whole functions (closures over &mut by instantiating Buffer::with/with_sync at the closure; closure '
+                        'bodies as statement ranges), plus the FIFO pipe invariants of both directions as composition lemmas. Of the poll-style '
+                        'adapter: replace_waker, the registration step of every poll entry point, and poll_write / poll_flush / poll_close / '
+                        'poll_read / poll_read_uninit as whole bodies over abstract interfaces of the two halves (Pending => own slot registered; '
+                        'shutdown only with no flush in flight and nothing queued; flush answers Ok only when flushed; WouldBlock never surfaces). '
+                        'Bounded (Kani, real SyncStream through its public API): limit honoured, short writes. NOT covered: read_buf, the thin '
+                        'SyncStream<S> wrapper, poll_future! (boxed in-flight futures), the loop of poll_fill_buf, WakerArrayRef (raw waker table).',
          'trusted': ['A6 synchronous projection; abstract inner stream obeys the stream contract',
                      'A3 Vec<u8> root axioms incl. growable() (allocator does not fail); compio-buf view contracts proved under C10',
-                     'std io::Read for &[u8] (vshim_slice_io_read), Option::replace, Waker::will_wake/clone (assume_specification)'],
+                     'std io::Read for &[u8] (vshim_slice_io_read), Option::replace, Waker::will_wake/clone (assume_specification)',
+                     'abstract interfaces WriteHalfOps / ReadHalfOps of the poll-style adapter: their operation contracts (poll_flush_impl, '
+                     'poll_close_impl, poll_read_impl, sync_write/sync_read, slot bookkeeping) are ASSUMED; ready!/`?` on Poll<Result> written out '
+                     'by definition'],
          'assumptions': ['partial: see explanation']}}
